@@ -1,6 +1,6 @@
 /-
   Lemmas/IncentBlocks — what can be proved about the streamer / incentives block functions of M-Incent
-  never failing (feeds property C11, "block processing never fails"), after fixes D1, D2, D3:
+  never failing (feeds property C11, "block processing never fails"), after fixes D1, D2 (D3 not applied):
     * `incDistribute_ok`   x/incentives `Keeper.Distribute` succeeds when no recipient is a blocked address
                             and every rollapp gauge's rollapp exists;
     * `streamer_endBlock_ok`  the streamer EndBlock succeeds in every state satisfying the invariant
@@ -511,7 +511,7 @@ theorem incentives_epochEnd_ok (s : State) (e : Nat) (hg : GInv s) (hroll : Roll
     block fails.  (`MsgTransferOwnership` accepted such an owner before fix F4.) -/
 def blockedOwnerHistory : List Op :=
   [.begin 1, .end_, .rollapp 0 2 true, .rollappGauge 0, .fund streamerAddr [9000],
-   .createStream [9000] [⟨1, 1⟩] 101 1 3, .rollapp 0 102 true, .begin 3601]
+   .createStream [9000] [⟨1, 1⟩] 101 1 3, .rollapp 0 102 true, .begin 3601, .end_, .begin 7201]
 
 theorem endblock_blocked_owner_counterexample :
     (match streamerEndBlock (run (init 100 500) blockedOwnerHistory) with | .error .err => true | _ => false) = true ∧
